@@ -226,11 +226,19 @@ def wallet_job(spec):
     if spec["unknowns"]:
         PC.add_unknowns(rng, p)
     with PC.Oracle() as o:
-        p.validate()
-        raw0 = p.serialize()
-        q0 = PC.reparse(raw0)
-        again = q0.serialize()
+        try:
+            p.validate()
+            raw0 = p.serialize()
+            q0 = PC.reparse(raw0)
+            again = q0.serialize()
+            loaded = None
+        except Exception as e:
+            loaded = f"{type(e).__name__}: {e}"[:200]
     orc.merge(o)
+    add_pred("honest_psbt_loads", loaded is None, loaded, "create + update + validate + serialize + parse succeed", step="base")
+    if loaded is not None:
+        return {"lines": lines, "preds": preds, "findings": findings, "histories": 0,
+                "stats": {"stype": st, "m": m, "n": n, "inputs": spec["n_inputs"], "subsets": 0}}
     add_pred("reserialize_idempotent", again == raw0, xb(again), xb(raw0), step="base")
     add_line("parse_ser", line_of("parse_ser", PC.NET, orc, xb(raw0)), xb(again), step="base")
 
@@ -571,7 +579,7 @@ def finding_witnesses():
 def wallet_specs(ctx):
     rng = ctx.rng
     specs = []
-    n_wallets = ctx.n(60, 400)
+    n_wallets = int(os.environ.get("VERIF_C10_WALLETS", "0")) or ctx.n(60, 400)   # env knob: debugging only
     combos = []
     for st in PC.SCRIPT_TYPES:
         if st in PC.MULTI_TYPES:
@@ -693,6 +701,7 @@ def _still(ctx, res, kind):
 
 
 PREDICATES = {
+    "honest_psbt_loads": "an honest PSBT built by create + update validates, serialises and parses back (all six script types)",
     "reserialize_idempotent": "serialize(parse(serialize p)) == serialize p on the real code, after every step",
     "order_independent": "every permutation / combine tree / sign-then-combine mix of one signer subset gives the same bytes",
     "combine_idempotent": "p.combine(p) serialises as p",
